@@ -465,6 +465,17 @@ fn gen_sw_affine<P: sw::SWCurveConfig>(g: &mut G<'_>) -> sw::Affine<P> {
         1 => P::GENERATOR,
         2 => -P::GENERATOR,
         3 if g.invalid_ok => sw_random_curve_point::<P>(g),
+        // curve points whose y has a zero coordinate (x^3+b in the prime subfield): sign-selection ties
+        4 | 5 | 6 if g.invalid_ok && P::BaseField::extension_degree() == 2 => match sw_x_with_rhs_in_subfield::<P>(g) {
+            Some(x) => {
+                let rhs = x.square() * x + P::COEFF_A * x + P::COEFF_B;
+                match rhs.sqrt() {
+                    Some(y) => sw::Affine::<P>::new_unchecked(x, if g.rng.chance(1, 2) { y } else { -y }),
+                    None => sw_random_curve_point::<P>(g),
+                }
+            },
+            None => sw_random_curve_point::<P>(g),
+        },
         _ => (P::GENERATOR * gen_scalar::<P::ScalarField>(g)).into_affine(),
     }
 }
